@@ -351,7 +351,7 @@ def _oracle_main(c, out):
     nh, wr, hl, rt = c.impl
     e = parse_exts(c.meta["exts"])
     first = c.meta["first"]
-    tail = _unhex(c.meta["tail"])
+    tail = _unhex(c.lines[3].split("\t")[3])  # from the line: the shrinker may have cut it
     for s in c.impl:
         if _bad(s):
             out.append(("no-panic", {"impl": c.impl}))
@@ -482,7 +482,7 @@ def _oracle_v4main(c, out):
             return
     a = parse_slot("auth", c.meta["auth"])
     first = c.meta["first"]
-    tail = _unhex(c.meta["tail"])
+    tail = _unhex(c.lines[3].split("\t")[3])
     walk_ok, write_ok = nh.startswith("ok("), wr.startswith("ok(")
     if walk_ok != write_ok:
         out.append(("write-iff-walk", {"next_header": nh, "write": wr[:80]}))
